@@ -524,6 +524,8 @@ def main(root, argv):
 
     # ---- 3. verdict
     own_oracle = [o for o in oracle_fail if owns(pid, info, o)]
+    # the smallest failing inputs first; codec-engine inputs are then minimised further
+    own_oracle.sort(key=lambda o: len(str(o.get("args", ""))))
     nrep = 0
     for o in own_oracle:
         k = known_match(known, pid, o)
@@ -538,6 +540,13 @@ def main(root, argv):
         payload = {"property": pid, "engine": "codec", "kind": "input", "seed": seed,
                    "case": {"f": o["f"], "args": o["args"]}, "impl": o["out"],
                    "oracle": {"statement": o["what"], "holds": False}, "suite": o["suite"], "build": o["build"]}
+        if int(o["f"]) < 600 and ("e1", o.get("build", "debug")) in bins:
+            rc, out, _ = run([bins[("e1", o.get("build", "debug"))], "shrink", str(o["f"]), o["args"], pid], timeout=60)
+            m = re.search(r"^minimized_args=(.*)$", out, re.M)
+            if rc == 0 and m and len(m.group(1)) < len(o["args"]):
+                payload["minimized"] = {"f": o["f"], "args": m.group(1),
+                                        "impl": (re.search(r"^minimized_out=(.*)$", out, re.M) or [None, ""])[1],
+                                        "oracle": (re.search(r"^minimized_what=(.*)$", out, re.M) or [None, ""])[1]}
         violations.append((write_replay(root, pid, nrep, payload), ""))
     if not violations and (disagreements or not pr["ok"] or corr_errors):
         # failing-input search: more seeds of the same suites through the property oracle only
